@@ -48,7 +48,7 @@ def run_cmd(cmd, cwd, timeout, mem_gb=None, log_path=None, env_extra=None):
 
 
 CHECK_RE = re.compile(
-    r"^Check (\d+): (\S+)\n\t - Status: (\S+)\n\t - Description: \"(.*)\"\n(?:\t - Location: (.*)\n)?", re.M)
+    r"^Check (\d+): ([^\n]+)\n\t - Status: (\S+)\n\t - Description: \"(.*)\"\n(?:\t - Location: (.*)\n)?", re.M)
 
 
 class HarnessResult:
@@ -97,7 +97,7 @@ def parse_output(name, out, rc, timed_out, wall):
     if timed_out:
         r.reason = "timeout"
         return r
-    if re.search(r"Out of memory|std::bad_alloc|CBMC failed with status|Status: ERROR|memory exhausted|SIGKILL|Killed", out):
+    if re.search(r"Out of memory|out of memory|std::bad_alloc|CBMC failed with status|Status: ERROR|memory exhausted|SIGKILL|Killed|kani_driver::cbmc_output_parser", out):
         r.reason = "solver resource error (out of memory / CBMC error)"
         return r
     if "VERIFICATION:- SUCCESSFUL" in out:
